@@ -123,17 +123,24 @@ def negate(e):
 
 
 class Schema:
-    def __init__(self):
+    def __init__(self, composite=False):
         from sqlalchemy import Column, Integer, String
         from sqlalchemy.orm import declarative_base
 
         Base = declarative_base()
-        attrs = {"__tablename__": "a", "id": Column(Integer, primary_key=True)}
-        for i in range(NI):
-            attrs["i%d" % i] = Column(Integer)
+        if composite:
+            # table key (i0, i1); the mapper is told primary_key=[i1, i0]
+            attrs = {"__tablename__": "a2", "i0": Column(Integer, primary_key=True, autoincrement=False), "i1": Column(Integer, primary_key=True, autoincrement=False)}
+            attrs["__mapper_args__"] = {"primary_key": [attrs["i1"], attrs["i0"]]}
+            for i in range(2, NI):
+                attrs["i%d" % i] = Column(Integer)
+        else:
+            attrs = {"__tablename__": "a", "id": Column(Integer, primary_key=True)}
+            for i in range(NI):
+                attrs["i%d" % i] = Column(Integer)
         for i in range(NS):
             attrs["s%d" % i] = Column(String)
-        self.A = type("A", (Base,), attrs)
+        self.A = type("A2" if composite else "A", (Base,), attrs)
         self.Base = Base
 
 
@@ -400,11 +407,13 @@ def gen(ctx):
 
 # ------------------------------------------------------------------ real code
 class World:
-    def __init__(self):
+    def __init__(self, composite=False):
         from sqlalchemy import create_engine, event
         from sqlalchemy.pool import StaticPool
 
-        self.schema = Schema()
+        self.composite = composite
+        self.keys = ["i0", "i1"] if composite else ["id"]
+        self.schema = Schema(composite)
         self.A = self.schema.A
         self.eng = create_engine("sqlite://", poolclass=StaticPool)
 
@@ -415,7 +424,7 @@ class World:
         self.schema.Base.metadata.create_all(self.eng)
 
     def rowdict(self, k, row):
-        d = {"id": k + 1}
+        d = {} if self.composite else {"id": k + 1}
         d.update({"i%d" % i: v for i, v in enumerate(row[0])})
         d.update({"s%d" % i: v for i, v in enumerate(row[1])})
         return d
@@ -427,7 +436,7 @@ class World:
         A = self.A
         sess.execute(A.__table__.delete())
         sess.execute(A.__table__.insert(), [self.rowdict(k, r) for k, r in enumerate(rows)])
-        objs = sess.scalars(select(A).order_by(A.id)).all()
+        objs = sess.scalars(select(A).order_by(*[getattr(A, k) for k in self.keys])).all()
         for o, (xi, xs) in zip(objs, expire):
             names = ["i%d" % i for i in xi] + ["s%d" % i for i in xs]
             if names:
@@ -470,27 +479,44 @@ class World:
                 else:
                     py.append("?%r" % (v,))
             sql = []
-            for v in sess.execute(select(expr.label("v")).select_from(A).order_by(A.id)).scalars():
+            for v in sess.execute(select(expr.label("v")).select_from(A).order_by(*[getattr(A, k) for k in self.keys])).scalars():
                 sql.append("N" if v is None else ("T" if v else "F"))
             sess.rollback()
         return py, sql
 
-    def run_dml(self, kind, mode, tree, sets, rows, expire):
-        """execute the bulk statement; returns per object (session outcome, db outcome, loaded dict)"""
-        from sqlalchemy import delete, inspect, select, update
+    def run_dml(self, kind, mode, tree, sets, rows, expire, lc=None):
+        """execute the bulk statement; returns per object (session outcome, db outcome, loaded dict).
+        `tree` None = no WHERE; `lc` = (form, include_aliases, tree) with_loader_criteria()"""
+        from sqlalchemy import delete, event, inspect, select, update
         from sqlalchemy.exc import InvalidRequestError
-        from sqlalchemy.orm import Session
+        from sqlalchemy.orm import Session, with_loader_criteria
         from sqlalchemy.orm import evaluator
 
         A = self.A
-        expr = saB(A, tree)
         out = {"error": None}
         with Session(self.eng) as sess:
             objs = self.load(sess, rows, expire)
             if kind == "update":
-                st = update(A).where(expr).values({getattr(A, "i%d" % c): saI(A, e) for c, e in sets})
+                st = update(A).values({getattr(A, "i%d" % c): saI(A, e) for c, e in sets})
             else:
-                st = delete(A).where(expr)
+                st = delete(A)
+            if tree is not None:
+                st = st.where(saB(A, tree))
+            if lc is not None:
+                form, incl, ltree = lc
+                if form == "lambda":
+                    opt = lambda_criteria(A, ltree, incl)
+                else:
+                    opt = with_loader_criteria(A, saB(A, ltree), include_aliases=incl)
+                if form == "session":
+
+                    @event.listens_for(sess, "do_orm_execute")
+                    def _add(state):
+                        if state.is_update or state.is_delete:
+                            state.statement = state.statement.options(opt)
+
+                else:
+                    st = st.options(opt)
             try:
                 sess.execute(st, execution_options={"synchronize_session": mode})
             except ZeroDivisionError:
@@ -502,7 +528,8 @@ class World:
                     out["error"] = "raise:InvalidRequestError"
             except Exception as e:
                 out["error"] = "raise:" + type(e).__name__
-            db = {r.id: r for r in sess.execute(select(A.__table__)).all()}
+            db = {tuple(getattr(r, k) for k in self.keys): r for r in sess.execute(select(A.__table__)).all()}
+            rowkeys = [tuple(r[0][:2]) if self.composite else (k + 1,) for k, r in enumerate(rows)]
             per = []
             for k, o in enumerate(objs):
                 st_ = inspect(o)
@@ -521,7 +548,7 @@ class World:
                     key = "s%d" % i
                     if key in d:
                         loaded[key] = d[key]
-                row = db.get(k + 1)
+                row = db.get(rowkeys[k])
                 per.append(
                     {
                         "in_session": o in sess,
@@ -529,6 +556,7 @@ class World:
                         "loaded": loaded,
                         "sentinel": sentinel,
                         "db": None if row is None else {c: getattr(row, c) for c in row._fields if c != "id"},
+                        "key": rowkeys[k],
                     }
                 )
             out["per"] = per
@@ -628,6 +656,29 @@ def bulk_pk_request(sc):
         else:
             slots.append("%d/%s/U/-/-" % (pk, show_ints(vals)))
     return "eval bulkpk %s %s" % (ps, ";".join(slots))
+
+
+def lambda_criteria(A, ltree, incl):
+    """with_loader_criteria(A, lambda cls: cls.iN > k): k is a tracked closure variable"""
+    from sqlalchemy.orm import with_loader_criteria
+
+    _, op, (_, col), (_, k) = ltree
+    assert op == "gt"
+    if col == 0:
+        return with_loader_criteria(A, lambda cls: cls.i0 > k, include_aliases=incl)
+    if col == 1:
+        return with_loader_criteria(A, lambda cls: cls.i1 > k, include_aliases=incl)
+    return with_loader_criteria(A, lambda cls: cls.i2 > k, include_aliases=incl)
+
+
+def effective_tree(case):
+    """criteria the statement carries: WHERE and the loader criteria, ANDed"""
+    lc = case.get("lc")
+    if lc is None:
+        return case["tree"]
+    if case["tree"] is None:
+        return lc[2]
+    return ("band", (case["tree"], lc[2]))
 
 
 def oracle(kind, res, k):
@@ -732,7 +783,12 @@ def case_from_json(c):
     rows = [([v for v in r[0]], [v for v in r[1]]) for r in c["rows"]]
     expire = [([v for v in e[0]], [v for v in e[1]]) for e in c["expire"]]
     sets = None if c.get("sets") is None else [(s[0], unjson(s[1])) for s in c["sets"]]
-    return {"kind": c["kind"], "mode": c["mode"], "tree": unjson(c["tree"]), "sets": sets, "rows": rows, "expire": expire}
+    out = {"kind": c["kind"], "mode": c["mode"], "tree": None if c["tree"] is None else unjson(c["tree"]), "sets": sets, "rows": rows, "expire": expire}
+    if c.get("lc") is not None:
+        out["lc"] = (c["lc"][0], c["lc"][1], unjson(c["lc"][2]))
+    if c.get("composite"):
+        out["composite"] = True
+    return out
 
 
 def gen_dml_case(rng, weird=False):
@@ -750,11 +806,43 @@ def gen_dml_case(rng, weird=False):
             expire.append(([], [rng.randrange(NS)]))
         else:
             expire.append(([], []))
-    return {"kind": kind, "mode": mode, "tree": tree, "sets": sets, "rows": rows, "expire": expire}
+    case = {"kind": kind, "mode": mode, "tree": tree, "sets": sets, "rows": rows, "expire": expire}
+    if rng.random() < 0.25:
+        form = rng.choice(["option", "session", "lambda"])
+        if form == "lambda":
+            ltree = ("bi", "gt", ("ic", rng.randrange(NI)), ("il", rng.choice([-2, 0, 1, 2, 4])))
+        else:
+            ltree = genB(rng, rng.choice([0, 0, 1]), False, top=False)
+        case["lc"] = (form, rng.random() < 0.5, ltree)
+        if rng.random() < 0.5 or tree[0] == "bconst":  # (and_(false(), x) folds into an AsBoolean the evaluator rejects)
+            case["tree"] = None  # no .where(): only the loader criteria restrict the rows
+    return case
+
+
+def gen_composite_case(rng):
+    """entity whose mapper primary_key order differs from the table's; asymmetric and mirrored keys"""
+    kind = rng.choice(["update", "delete"])
+    mode = rng.choice(["evaluate", "fetch", "fetch", "auto"])
+    keys = rng.sample([(a, b) for a in (1, 2, 3) for b in (1, 2, 3)], rng.randint(2, 6))
+    if rng.random() < 0.7:
+        a, b = rng.choice([(1, 2), (1, 3), (2, 3)])
+        keys = list(dict.fromkeys(keys + [(a, b), (b, a)]))
+    keys.sort()
+    rows = [([a, b, rng.choice([None, -3, 0, 1, 2, 5])], [rng.choice(STRS), rng.choice(STRS)]) for a, b in keys]
+    m = rng.random()
+    if m < 0.4:
+        tree = ("bi", rng.choice(CMPS), ("ic", 2), ("il", rng.choice([0, 1, 2])))
+    elif m < 0.7:
+        tree = ("band", (("bi", "eq", ("ic", 0), ("il", rng.choice([1, 2, 3]))), ("bi", rng.choice(CMPS), ("ic", 1), ("il", rng.choice([1, 2, 3])))))
+    else:
+        tree = genB(rng, rng.choice([0, 1, 2]), False)
+    sets = [(2, rng.choice([("il", rng.choice([7, 9, 11])), ("i+", ("ic", 2), ("il", 10)), ("i+", ("ic", 0), ("ic", 1))]))] if kind == "update" else None
+    expire = [(([2], []) if rng.random() < 0.1 else ([], [])) for _ in rows]
+    return {"kind": kind, "mode": mode, "tree": tree, "sets": sets, "rows": rows, "expire": expire, "composite": True}
 
 
 def dml_requests(case):
-    e = ";".join(tokB(case["tree"]))
+    e = ";".join(tokB(effective_tree(case)))
     reqs = []
     for (ints, strs), (xi, xs) in zip(case["rows"], case["expire"]):
         if case["kind"] == "update":
@@ -767,7 +855,7 @@ def dml_requests(case):
 def static_key(case, k):
     """known-finding shapes that are visible without the model"""
     xi, xs = case["expire"][k]
-    ri, rs = readsB(case["tree"])
+    ri, rs = readsB(effective_tree(case))
     if case["kind"] == "update":
         if case["mode"] != "fetch" and (set(xi) & ri or set(xs) & rs):
             return "update-where-reads-expired-attribute"
@@ -781,7 +869,7 @@ def static_key(case, k):
 def viol_requests(case, k):
     """driver requests naming the failing guards for object k (criteria, then each SET value)"""
     ints, strs = case["rows"][k]
-    reqs = ["eval viol 1 %s %s %s" % (";".join(tokB(case["tree"])), show_ints(ints), show_strs(strs))]
+    reqs = ["eval viol 1 %s %s %s" % (";".join(tokB(effective_tree(case))), show_ints(ints), show_strs(strs))]
     for c, e in case["sets"] or []:
         reqs.append("eval viol 1 %s %s %s" % (";".join(tokB(("bi", "eq", e, ("il", 0)))), show_ints(ints), show_strs(strs)))
     return reqs
@@ -843,10 +931,17 @@ def run(ctx, deep=False):
         cases.append(gen_dml_case(ctx.rng, weird=ctx.rng.random() < 0.1))
     c3, i3, r3 = [], [], []
     pending = []  # oracle failures awaiting the guard names from the model
+    w2 = World(composite=True)
+    for _ in range(700 if thorough else 120):
+        cases.append(gen_composite_case(ctx.rng))
     for case in cases:
-        res = w.run_dml(case["kind"], case["mode"], case["tree"], case["sets"], case["rows"], case["expire"])
-        ctx.case((";".join(tokB(case["tree"])), case["rows"], case["mode"], case["kind"]), nontrivial=True)
+        res = (w2 if case.get("composite") else w).run_dml(case["kind"], case["mode"], case["tree"], case["sets"], case["rows"], case["expire"], case.get("lc"))
+        ctx.case((";".join(tokB(effective_tree(case))), case["rows"], case["mode"], case["kind"], str(case.get("lc"))), nontrivial=True)
         ctx.count("dml=%s/%s" % (case["kind"], case["mode"]))
+        if case.get("lc") is not None:
+            ctx.count("with_loader_criteria=%s%s" % (case["lc"][0], "" if case["tree"] is not None else "/no-where"))
+        if case.get("composite"):
+            ctx.count("composite-pk-mapper-order-differs")
         if res["error"]:
             ctx.count("dml-error=" + res["error"])
         reqs = dml_requests(case)
@@ -988,11 +1083,11 @@ def replay(ctx, obj):
         print("replay C43 bulk %s by pk params=%s loaded=%s mode=%s -> %s ; oracle: %s" % (sc["form"], sc["params"], sc["loaded"], sc["mode"], line, why))
         return why is not None
     case = case_from_json(c)
-    w = World()
-    res = w.run_dml(case["kind"], case["mode"], case["tree"], case["sets"], case["rows"], case["expire"])
+    w = World(composite=bool(case.get("composite")))
+    res = w.run_dml(case["kind"], case["mode"], case["tree"], case["sets"], case["rows"], case["expire"], case.get("lc"))
     k = c.get("obj", 0)
     why = oracle(case["kind"], res, k)
     print("replay C43 %s %s where=%s sets=%s row=%s expired=%s -> session=%s db=%s error=%s ; oracle: %s" % (
-        case["kind"], case["mode"], str(saB(w.A, case["tree"])), case["sets"], case["rows"][k], case["expire"][k],
+        case["kind"], case["mode"], "%s loader_criteria=%s" % (None if case["tree"] is None else str(saB(w.A, case["tree"])), case.get("lc")), case["sets"], case["rows"][k], case["expire"][k],
         res["per"][k]["loaded"] if res["per"][k]["in_session"] else "removed", res["per"][k]["db"], res["error"], why))
     return why is not None
